@@ -15,7 +15,7 @@ def toksB (fl : PFlags) : Re → List Tok
   | .empty => []
   | .chr c => [.chr (foldc fl c)]
   | .any => [.dot]
-  | .cls _ => [.err .ebrack]
+  | .cls bm => [.cls (normCls fl bm)]
   | .bol => [.caret]
   | .eol => [.dollar]
   | .cat a b => toksB fl a ++ toksB fl b
@@ -190,6 +190,17 @@ theorem lexesB_quant (fl : PFlags) (m : Nat) (n : Option Nat) (hok : countOk m n
     have := lexesB_count fl m n hok h
     simpa using this
 
+theorem lexesB_cls (fl : PFlags) (bm : Nat) (h256 : bm < 2 ^ 256) (h0 : bm.testBit 0 = false)
+    {rest : List UInt8} {ts : List Tok} (h : LexesB fl rest ts) :
+    LexesB fl (renderCls bm ++ rest) (.cls (normCls fl bm) :: ts) := by
+  intro fuel hf
+  cases fuel with
+  | zero => simp [renderCls] at hf
+  | succ f =>
+    have hp := parseClass_clsBody fl bm h256 h0 rest
+    have hrest := h f (by simp [renderCls] at hf; omega)
+    simp [renderCls, lexB, hp, hrest]
+
 theorem lexesB_render (fl : PFlags) : ∀ (r : Re) (lvl : Nat) (first last : Bool), wfBL lvl first last r = true →
     ∀ {rest : List UInt8} {ts : List Tok}, (last = true → EndOk rest) → LexesB fl rest ts →
       LexesB fl (renderBRE r ++ rest) (toksB fl r ++ ts) := by
@@ -198,7 +209,10 @@ theorem lexesB_render (fl : PFlags) : ∀ (r : Re) (lvl : Nat) (first last : Boo
   | empty => intro lvl first last _ rest ts _ h; simpa [renderBRE, toksB] using h
   | chr c => intro lvl first last _ rest ts _ h; simpa [toksB] using lexesB_chr fl c h
   | any => intro lvl first last _ rest ts _ h; simpa [renderBRE, toksB] using lexesB_dot fl h
-  | cls bm => intro lvl first last hwf; simp [wfBL] at hwf
+  | cls bm =>
+    intro lvl first last hwf rest ts _ h
+    simp only [wfBL, Bool.and_eq_true, decide_eq_true_eq, Bool.not_eq_true'] at hwf
+    simpa [renderBRE, toksB] using lexesB_cls fl bm hwf.1 hwf.2 h
   | bol => intro lvl first last _ rest ts _ h; simpa [renderBRE, toksB] using lexesB_caret fl h
   | eol =>
     intro lvl first last hwf rest ts hend h
@@ -259,7 +273,9 @@ theorem parse_mainB (fl : PFlags) : ∀ (r : Re) (first last : Bool),
   intro r
   induction r with
   | empty => intro first last h; simp [wfBL] at h
-  | cls bm => intro first last h; simp [wfBL] at h
+  | cls bm =>
+    intro first last _ st _ _
+    exact leaf_stepB fl (.cls bm) (.cls (normCls fl bm)) (.cls (normCls fl bm)) rfl rfl rfl rfl st rfl
   | alt a b _ _ => intro first last h; simp [wfBL] at h
   | chr c =>
     intro first last _ st _ _
@@ -364,7 +380,7 @@ theorem renderB_ne_nil : ∀ (r : Re) (lvl : Nat) (first last : Bool), lvl ≤ 2
   | empty => intro lvl _ _ h hwf; simp [wfBL] at hwf; omega
   | chr c => intro lvl _ _ _ _; simp only [renderBRE]; split <;> simp
   | any => intro lvl _ _ _ _; simp [renderBRE]
-  | cls bm => intro lvl _ _ _ _; simp [renderBRE]
+  | cls bm => intro lvl _ _ _ _; simp [renderBRE, renderCls]
   | bol => intro lvl _ _ _ _; simp [renderBRE]
   | eol => intro lvl _ _ _ _; simp [renderBRE]
   | cat a b iha _ =>
@@ -410,5 +426,29 @@ theorem parseBRE_renderBRE (fl : PFlags) (r : Re) (h : wfB r = true) :
   have halts : st'.top.alts = [] := b3
   simp only [parseBRE, hne, hlex, parseToks, hrun, pfinish, hstack, hbad]
   simp [closeFrame, hcur, halts, mkCat_items, mkAlt, b2]
+
+theorem foldRe_noflagsB : ∀ (r : Re) (lvl : Nat) (first last : Bool), wfBL lvl first last r = true →
+    foldRe {} r = r := by
+  intro r
+  induction r with
+  | chr c => intro lvl _ _ _; simp [foldRe, foldc]
+  | cls bm =>
+    intro lvl _ _ h
+    simp only [wfBL, Bool.and_eq_true, decide_eq_true_eq, Bool.not_eq_true'] at h
+    simp only [foldRe, normCls_noflags bm h.1 h.2]
+  | cat a b iha ihb =>
+    intro lvl first last h
+    simp only [wfBL, Bool.and_eq_true] at h
+    simp only [foldRe, iha 0 first false h.1.2, ihb 1 false last h.2]
+  | alt a b _ _ => intro lvl _ _ h; simp [wfBL] at h
+  | rep r m n ih =>
+    intro lvl _ _ h
+    simp only [wfBL, Bool.and_eq_true] at h
+    simp only [foldRe, ih 0 false false h.1.2]
+  | group r ih =>
+    intro lvl _ _ h
+    simp only [wfBL] at h
+    simp only [foldRe, ih 3 true true h]
+  | _ => intro lvl _ _ _; rfl
 
 end Usual.C04
